@@ -27,18 +27,22 @@ var c09Tokens = []string{"[", "]", "{", "}", ",", ":", `"`, `"a"`, "1", " ", "\n
 var magicJSON func([]byte, uint32) bool
 
 func c09Judge(c *fw.Ctx, kind string, x []byte, limit uint32, distinct bool) {
+	entry := "Detect"
+	if forcedEntry != "" || kind != "enum" || c.Rand.Intn(30) == 0 {
+		entry = pickEntry(c)
+	}
 	if magicJSON == nil {
 		magicJSON = mimetype.VerifMagic()["JSON"]
 	}
 	h := lib.Header(x, limit)
 	whole := limit == 0 || len(h) < int(limit)
 	st := oracle.Doc(h)
-	key := fw.InputKey(x, limit, "Detect")
-	c.Trace(func() (string, any) { return key, fw.MkInCase(kind, x, limit, "Detect", "") })
+	key := fw.InputKey(x, limit, entry)
+	c.Trace(func() (string, any) { return key, fw.MkInCase(kind, x, limit, entry, "") })
 	var ch lib.Chain
 	var direct bool
-	ok := c.Guard(key, func() any { return fw.MkInCase(kind, x, limit, "Detect", "panic") }, func() {
-		m := lib.Detect(x, limit)
+	ok := c.Guard(key, func() any { return fw.MkInCase(kind, x, limit, entry, "panic") }, func() {
+		m := detectEntry(x, limit, entry)
 		anomalyC02(c, m, nil)
 		ch = lib.ChainOf(m)
 		direct = magicJSON(h, limit)
@@ -73,7 +77,7 @@ func c09Judge(c *fw.Ctx, kind string, x []byte, limit uint32, distinct bool) {
 		c.Count("cases_parser_must_reject", 1)
 		if fam {
 			c.Violate("malformed-reported-as-json", key, fmt.Sprintf("%s, but result is %s; input %s limit %d", bad, ch, fw.Quote(x, 100), limit),
-				fw.MkInCase(kind, x, limit, "Detect", bad))
+				fw.MkInCase(kind, x, limit, entry, bad))
 		}
 		if direct {
 			c.Violate("malformed-accepted-by-signature-check", fw.InputKey(x, limit, "magic.JSON"), fmt.Sprintf("%s, but the JSON signature check accepts it; input %s limit %d", bad, fw.Quote(x, 100), limit),
@@ -365,6 +369,9 @@ func init() {
 			if err != nil {
 				fmt.Println("bad payload:", err)
 				return
+			}
+			if ic.Entry != "magic.JSON" {
+				forcedEntry = ic.Entry
 			}
 			c09Judge(c, ic.Kind, ic.In, ic.Limit, false)
 		},
